@@ -20,7 +20,8 @@ class VariablesAreInputTypes(June2018ReleaseValidationRule):
     def validate(self, variable, path, schema, **__):
         var_type = get_wrapped_named_type(variable.type)
 
-        if schema.has_type(var_type.name.value) and not isinstance(
+        # A type which isn't defined in the schema isn't an input type either
+        if not schema.has_type(var_type.name.value) or not isinstance(
             schema.find_type(var_type.name.value), GraphQLInputType
         ):
             return [
